@@ -551,6 +551,11 @@ def R1(ctx: Ctx) -> RuleResult:
                 r.fail(f'{name}: {show(fin, fb.atoms)}', f'rewrite {desc} is not an equivalence: {why}', f'{fi.module.relpath}:{o.lineno}', 'equivalent', desc)
             else:
                 r.ok(f'{name}: {desc}')
+            # a part of the input handed back as it is may itself need a transformation step (it is of any shape): it must
+            # go through the pre-split transformation again, the work list only re-processes conjunctions
+            cv = canon(o.value)
+            if isinstance(cv, Attr) and cv != canon(param) and any(x == canon(param) for x in walk(cv)):
+                r.fail(f'{name}:resubmit', f'{desc}: the sub-formula {show(fout, fb.atoms)} is returned without another pass of _and_presplit_transform: when it is itself a negated disjunction / implication / quantifier over a conjunction it is emitted unsplit', f'{fi.module.relpath}:{o.lineno}')
             # which divisible shape did this path transform?
             if fin != fout or isinstance(o.value, Call):
                 if fin[0] == 'not' and fin[1][0] in ('not', 'or', 'implies', 'exists'):
@@ -689,6 +694,12 @@ def _mentions_alias(f, atoms, sh: Shapes, alias: Term, param: Term) -> Optional[
         d = sh.dep.get((dom, alias))
         if d is True:
             return f'domain {dom!r} mentions the alias'
+        if d is None:
+            for (x, v), pol in sh.dep.items():
+                if v == alias and not pol and any(y == x for y in walk(dom)):
+                    d = False
+        if d is None:
+            return f'domain {dom!r} is not known to be free of the alias (no path condition rules it out)'
         return _mentions_alias(f[3], atoms, sh, alias, param)
     return None
 
@@ -756,6 +767,7 @@ def R3(ctx: Ctx) -> RuleResult:
     (r.ok('False & q = False') if ok else r.fail(f'{CT}.join', f'expected self, got {[str(o)[:60] for o in outs]}', fi.where))
     fi, outs = ev_m(PE, 'join', {'other': other})
     cases = {}
+    all_cases = []
     for o in outs:
         gs = norm_guards(o.guards)
         for g2, leaf in alternatives(o.value):
@@ -763,6 +775,7 @@ def R3(ctx: Ctx) -> RuleResult:
             vac = next((pol for g, pol in gg if isinstance(g, Attr) and g.base == other and g.name == 'is_vacuous'), None)
             tru = next((pol for g, pol in gg if isinstance(g, Attr) and g.base == other and g.name == 'is_true'), None)
             cases[(vac, tru)] = leaf
+            all_cases.append(((vac, tru), leaf, gg))
     want_and = lambda v: isinstance(v, New) and v.cls == PE and isinstance(v.get('expression'), New) and _binop(v.get('expression')) == 'and' and {v.get('expression').get('operand1'), v.get('expression').get('operand2')} == {e, Attr(other, 'condition')}
     checks = [((True, True), lambda v: v == self_p, 'p & True = p'), ((True, False), lambda v: v == other, 'p & False = False'), ((False, None), want_and, 'p & q = And(p, q)')]
     for k, pred, label in checks:
@@ -773,6 +786,17 @@ def R3(ctx: Ctx) -> RuleResult:
             r.ok(label)
         else:
             r.fail(f'{PE}.join:{label}', f'{label} violated: join returns {str(v)[:80]} for (other.is_vacuous, other.is_true) = {k}; cases: {[(kk, str(vv)[:30]) for kk, vv in cases.items()]}', fi.where)
+    # every path for a non-vacuous `other` builds the conjunction: a shortcut that returns one side under some other
+    # condition drops a conjunct
+    for (vac, tru), leaf, gg in all_cases:
+        if vac is False and not want_and(leaf):
+            extra = [g for g, pol in gg if not (isinstance(g, Attr) and g.base == other and g.name in ('is_vacuous', 'is_true'))]
+            # p & p = p: returning one side when both conditions are structurally equal is an identity, not a loss
+            same = any(pol and isinstance(g, Op) and g.op == '==' and {g.args[0], g.args[1]} in ({e, Attr(other, 'condition')}, {self_p, other}, {Attr(self_p, 'condition'), Attr(other, 'condition')}) for g, pol in gg)
+            if same and leaf in (self_p, other):
+                r.ok('p & p = p (structural equality)')
+                continue
+            r.fail(f'{PE}.join:shortcut', f'for a non-vacuous other, join returns {str(leaf)[:60]} under [{guards_repr(tuple((g, True) for g in extra))[:100]}] instead of And(self, other): a conjunct is dropped', fi.where)
     # predicate_from_expression: literal True/False -> vacuous predicates
     fi = m.func('hpl.ast.predicates', 'predicate_from_expression', 'R3')
     outs = ctx.ev.run(fi, {'expr': Sym('expr', 'HplExpression')})
